@@ -435,7 +435,9 @@ def rule_trailingtype(repo: Repo, rid: str = "C05.trailingtype") -> RuleResult:
         tail.append(c)
     r.site(f.qn + " [untyped tail]")
     if not tail:
-        raise AnalysisError("parse_objects: no PDDLObject construction after the token loop (the flush of the untyped tail) was found")
+        # no separate flush: whether the tail is declared at all is C05.leftover's question; there is no type choice to judge here
+        r.ok({"untyped_tail": "no construction after the token loop (C05.leftover decides whether the tail is declared)"})
+        return r
     bad = None
     for c in tail:
         t = L.arg_of(c, init, "type", 1)
